@@ -147,7 +147,7 @@ func genReadyRandom(ctx *core.Ctx, r *hx.Rand) {
 // interesting instants; it takes no part in any verdict.
 
 const (
-	sec = int64(time.Second)
+	sec    = int64(time.Second)
 	minute = 60 * sec
 )
 
